@@ -1,0 +1,279 @@
+//go:build verif
+// +build verif
+
+package server
+
+import (
+	"context"
+	"encoding/json"
+	"fmt"
+	"strings"
+	"sync"
+	"time"
+
+	"github.com/XiaoMi/Gaea/backend"
+	"github.com/XiaoMi/Gaea/log"
+	"github.com/XiaoMi/Gaea/models"
+	"github.com/XiaoMi/Gaea/mysql"
+)
+
+// Verification hooks for the prepared-statement properties (C15, C16): a
+// SessionExecutor over a namespace whose only slice is served by an in-memory
+// backend, with the general (SQL) log captured, so that the statement text
+// handed to handleQuery by COM_STMT_EXECUTE can be observed.
+
+const verifStmtNamespace = `{
+    "name": "verif_stmt_ns",
+    "online": true,
+    "read_only": false,
+    "allowed_dbs": {"db1": true},
+    "default_phy_dbs": {"db1": "db1"},
+    "slices": [
+        {"name": "slice-0", "user_name": "root", "password": "root", "master": "127.0.0.1:1",
+         "capacity": 4, "max_capacity": 4, "idle_timeout": 3600}
+    ],
+    "shard_rules": [],
+    "users": [
+        {"user_name": "verif_stmt", "password": "verif_stmt", "namespace": "verif_stmt_ns", "rw_flag": 2, "rw_split": 0}
+    ],
+    "default_slice": "slice-0",
+    "max_sql_execute_time": 0
+}`
+
+// verifCaptureLogger records the statement texts written to the general log by
+// RecordSessionSQLMetrics (one line per handleQuery call).
+type verifCaptureLogger struct {
+	mu   sync.Mutex
+	sqls []string
+}
+
+func (l *verifCaptureLogger) capture(format string, a []interface{}) {
+	if !strings.Contains(format, "transaction=%t|%v") || len(a) < 12 {
+		return
+	}
+	if st, ok := a[0].(string); ok && st == SQLExecStatusSlow {
+		return
+	}
+	l.mu.Lock()
+	l.sqls = append(l.sqls, fmt.Sprint(a[11]))
+	l.mu.Unlock()
+}
+
+func (l *verifCaptureLogger) take() []string {
+	l.mu.Lock()
+	defer l.mu.Unlock()
+	r := l.sqls
+	l.sqls = nil
+	return r
+}
+
+func (l *verifCaptureLogger) SetLevel(name, level string) error           { return nil }
+func (l *verifCaptureLogger) Debug(format string, a ...interface{}) error { return nil }
+func (l *verifCaptureLogger) Trace(format string, a ...interface{}) error { return nil }
+func (l *verifCaptureLogger) Notice(format string, a ...interface{}) error {
+	l.capture(format, a)
+	return nil
+}
+func (l *verifCaptureLogger) Warn(format string, a ...interface{}) error {
+	l.capture(format, a)
+	return nil
+}
+func (l *verifCaptureLogger) Fatal(format string, a ...interface{}) error       { return nil }
+func (l *verifCaptureLogger) Debugx(id, format string, a ...interface{}) error  { return nil }
+func (l *verifCaptureLogger) Tracex(id, format string, a ...interface{}) error  { return nil }
+func (l *verifCaptureLogger) Noticex(id, format string, a ...interface{}) error { return nil }
+func (l *verifCaptureLogger) Warnx(id, format string, a ...interface{}) error   { return nil }
+func (l *verifCaptureLogger) Fatalx(id, format string, a ...interface{}) error  { return nil }
+func (l *verifCaptureLogger) Close()                                            {}
+func (l *verifCaptureLogger) Dropped(i int) uint64                              { return 0 }
+
+// verifQuietLogger replaces the process-wide logger: the prepared-statement
+// path logs every prepare at debug level.
+type verifQuietLogger struct{ verifCaptureLogger }
+
+func (l *verifQuietLogger) Notice(format string, a ...interface{}) error { return nil }
+func (l *verifQuietLogger) Warn(format string, a ...interface{}) error   { return nil }
+
+// verifMemConn is a backend connection that accepts everything and records
+// the statements it is asked to execute.
+type verifMemConn struct {
+	pool *verifMemPool
+}
+
+func (c *verifMemConn) Recycle()                               {}
+func (c *verifMemConn) Reconnect() error                       { return nil }
+func (c *verifMemConn) Close()                                 {}
+func (c *verifMemConn) IsClosed() bool                         { return false }
+func (c *verifMemConn) UseDB(db string) error                  { return nil }
+func (c *verifMemConn) SetAutoCommit(uint8) error              { return nil }
+func (c *verifMemConn) Begin() error                           { return nil }
+func (c *verifMemConn) Commit() error                          { return nil }
+func (c *verifMemConn) Rollback() error                        { return nil }
+func (c *verifMemConn) Ping() error                            { return nil }
+func (c *verifMemConn) PingWithTimeout(time.Duration) error    { return nil }
+func (c *verifMemConn) GetAddr() string                        { return "mem:0" }
+func (c *verifMemConn) GetConnectionID() int64                 { return 1 }
+func (c *verifMemConn) GetReturnTime() time.Time               { return time.Time{} }
+func (c *verifMemConn) MoreRowsExist() bool                    { return false }
+func (c *verifMemConn) MoreResultsExist() bool                 { return false }
+func (c *verifMemConn) WriteSetStatement() error               { return nil }
+func (c *verifMemConn) FetchMoreRows(*mysql.Result, int) error { return nil }
+func (c *verifMemConn) ReadMoreResult(int) (*mysql.Result, error) {
+	return &mysql.Result{}, nil
+}
+func (c *verifMemConn) SetCharset(string, mysql.CollationID) (bool, error)        { return false, nil }
+func (c *verifMemConn) FieldList(string, string) ([]*mysql.Field, error)          { return nil, nil }
+func (c *verifMemConn) SetSessionVariables(*mysql.SessionVariables) (bool, error) { return false, nil }
+func (c *verifMemConn) SyncSessionVariables(*mysql.SessionVariables) error        { return nil }
+func (c *verifMemConn) Execute(sql string, maxRows int) (*mysql.Result, error) {
+	c.pool.mu.Lock()
+	c.pool.executed = append(c.pool.executed, sql)
+	c.pool.mu.Unlock()
+	return &mysql.Result{Status: mysql.ServerStatusAutocommit, Resultset: nil}, nil
+}
+func (c *verifMemConn) ExecuteWithTimeout(sql string, maxRows int, _ time.Duration) (*mysql.Result, error) {
+	return c.Execute(sql, maxRows)
+}
+
+type verifMemPool struct {
+	mu       sync.Mutex
+	executed []string
+}
+
+func (p *verifMemPool) Open() error                  { return nil }
+func (p *verifMemPool) Addr() string                 { return "mem:0" }
+func (p *verifMemPool) Datacenter() string           { return "" }
+func (p *verifMemPool) Close()                       {}
+func (p *verifMemPool) Put(backend.PooledConnect)    {}
+func (p *verifMemPool) SetCapacity(int) error        { return nil }
+func (p *verifMemPool) SetIdleTimeout(time.Duration) {}
+func (p *verifMemPool) StatsJSON() string            { return "{}" }
+func (p *verifMemPool) Capacity() int64              { return 4 }
+func (p *verifMemPool) Available() int64             { return 4 }
+func (p *verifMemPool) Active() int64                { return 0 }
+func (p *verifMemPool) InUse() int64                 { return 0 }
+func (p *verifMemPool) MaxCap() int64                { return 4 }
+func (p *verifMemPool) WaitCount() int64             { return 0 }
+func (p *verifMemPool) WaitTime() time.Duration      { return 0 }
+func (p *verifMemPool) IdleTimeout() time.Duration   { return 0 }
+func (p *verifMemPool) IdleClosed() int64            { return 0 }
+func (p *verifMemPool) SetLastChecked()              {}
+func (p *verifMemPool) GetLastChecked() int64        { return 0 }
+func (p *verifMemPool) Get(context.Context) (backend.PooledConnect, error) {
+	return &verifMemConn{pool: p}, nil
+}
+func (p *verifMemPool) GetCheck(ctx context.Context) (backend.PooledConnect, error) {
+	return p.Get(ctx)
+}
+
+var (
+	verifStmtOnce    sync.Once
+	verifStmtManager *Manager
+	verifStmtLogger  *verifCaptureLogger
+	verifStmtPool    *verifMemPool
+	verifStmtErr     error
+)
+
+func verifStmtSetup() {
+	log.SetGlobalLogger(&verifQuietLogger{})
+	nsCfg := &models.Namespace{}
+	if verifStmtErr = json.Unmarshal([]byte(verifStmtNamespace), nsCfg); verifStmtErr != nil {
+		return
+	}
+	proxyCfg := &models.Proxy{Cluster: "verif", Service: "verif", StatsEnabled: "false", ServerIdc: "c3"}
+	m := NewManager()
+	sm := NewStatisticManager()
+	sm.manager = m
+	sm.clusterName = proxyCfg.Cluster
+	sm.SQLResponsePercentile = make(map[string]*SQLResponse)
+	if verifStmtErr = sm.Init(proxyCfg); verifStmtErr != nil {
+		return
+	}
+	verifStmtLogger = &verifCaptureLogger{}
+	sm.generalLogger = verifStmtLogger
+	m.statistics = sm
+	current, _, _ := m.switchIndex.Get()
+	cfgs := map[string]*models.Namespace{nsCfg.Name: nsCfg}
+	m.namespaces[current] = CreateNamespaceManager(proxyCfg.ServerIdc, cfgs)
+	users, err := CreateUserManager(cfgs)
+	if err != nil {
+		verifStmtErr = err
+		return
+	}
+	m.users[current] = users
+	ns := m.GetNamespace(nsCfg.Name)
+	if ns == nil {
+		verifStmtErr = fmt.Errorf("namespace %s was not created", nsCfg.Name)
+		return
+	}
+	verifStmtPool = &verifMemPool{}
+	ns.slices["slice-0"].Master = &backend.DBInfo{Nodes: []*backend.NodeInfo{
+		{Address: "mem:0", ConnPool: verifStmtPool, Status: backend.StatusUp},
+	}}
+	ns.slices["slice-0"].Slave = &backend.DBInfo{}
+	verifStmtManager = m
+}
+
+// VerifStmtSession is one client session talking to the in-memory backend.
+type VerifStmtSession struct {
+	se *SessionExecutor
+}
+
+// VerifNewStmtSession opens a fresh session (no prepared statements, default
+// session variables).
+func VerifNewStmtSession() (*VerifStmtSession, error) {
+	verifStmtOnce.Do(verifStmtSetup)
+	if verifStmtErr != nil {
+		return nil, verifStmtErr
+	}
+	se := newSessionExecutor(verifStmtManager)
+	se.namespace = "verif_stmt_ns"
+	se.user = "verif_stmt"
+	se.db = "db1"
+	se.SetCollationID(mysql.CollationID(33))
+	se.SetCharset("utf8")
+	cc := new(Session)
+	cc.proxy = &Server{manager: verifStmtManager, ServerVersion: "5.7.25-gaea"}
+	cc.c = &ClientConn{Conn: &mysql.Conn{}}
+	se.session = cc
+	se.SetContextNamespace()
+	return &VerifStmtSession{se: se}, nil
+}
+
+// VerifStmtOutcome is what one command did, as far as the prepared-statement
+// properties observe it.
+type VerifStmtOutcome struct {
+	RespType   int      // RespOK, RespError, RespPrepare, …
+	Err        error    // for RespError
+	StmtID     uint32   // for RespPrepare
+	ParamCount int      // for RespPrepare
+	HandledSQL []string // statement texts handed to handleQuery during the command
+	BackendSQL []string // statement texts that reached the backend during the command
+}
+
+// Command runs ExecuteCommand and collects the outcome.
+func (v *VerifStmtSession) Command(cmd byte, data []byte) VerifStmtOutcome {
+	verifStmtLogger.take()
+	verifStmtPool.mu.Lock()
+	verifStmtPool.executed = nil
+	verifStmtPool.mu.Unlock()
+	resp := v.se.ExecuteCommand(cmd, data)
+	out := VerifStmtOutcome{RespType: resp.RespType}
+	switch resp.RespType {
+	case RespError:
+		if e, ok := resp.Data.(error); ok {
+			out.Err = e
+		}
+	case RespPrepare:
+		if s, ok := resp.Data.(*Stmt); ok {
+			out.StmtID = s.id
+			out.ParamCount = s.paramCount
+		}
+	}
+	out.HandledSQL = verifStmtLogger.take()
+	verifStmtPool.mu.Lock()
+	out.BackendSQL = verifStmtPool.executed
+	verifStmtPool.executed = nil
+	verifStmtPool.mu.Unlock()
+	return out
+}
